@@ -91,25 +91,36 @@ def rule_path(ctx, R):
         R.inst(PNC, "append-hook", {"at": pb.loc(a), "dominated_by_is_write_command": ok})
         if not ok:
             R.finding(PNC, "append-hook:not-gated", "the AOF append is not decided by is_write_command", pb.loc(a))
-    # the hook is on every path to the dispatch: the test of `aof_engine` presence (whose Some edge
-    # holds the append) dominates the dispatcher's first string test
-    tests = shared.str_tests(pb)
-    present = []
-    for i, bb in enumerate(pb.bbs):
-        t = bb["t"]
-        if t["k"] == "switch":
-            dl = op_local(t["d"])
-            for st in bb["s"]:
-                if st["k"] == "=" and st["l"]["l"] == dl and st["r"]["k"] == "discr":
-                    fl = [e.get("f", "") for e in st["r"]["p"]["p"] if isinstance(e, dict)] + prov.origins(pb, st["r"]["p"]["l"]).fields
-                    if any(f.endswith("Server.aof_engine") for f in fl):
-                        present.append(i)
-    disp = [t["bb"] for t in tests if any(cfg.dominates(pb, p_, t["bb"]) for p_ in present)] if present else []
-    later = [t["bb"] for t in tests if ap and t["bb"] in cfg.fwd(pb, [ap[0]])]
-    ok = bool(present) and bool(later) and all(any(cfg.dominates(pb, p_, x) for p_ in present) for x in later)
-    R.inst(PNC, "hook-before-dispatch", {"aof_presence_tests": len(present), "dispatch_tests_after_hook": len(later), "ok": ok})
+    # the hook is on every path to the dispatch: a dispatcher arm that can reach a mutator is entered
+    # only after the append, or where the command is not a write command, or where the AOF is off
+    import boolpath
+
+    class HookSpec(boolpath.Spec):
+        def call(s, b, bbi, t):
+            if callee(t) == SERVER + "is_write_command":
+                return boolpath.N
+            return None
+
+        def edges(s, b, bbi, t):
+            def is_aof(b_, o):
+                pl = op_place(o)
+                fl = [e.get("f", "") for e in pl["p"] if isinstance(e, dict)] + prov.origins(b_, pl["l"]).fields
+                return any(f.endswith("Server.aof_engine") for f in fl)
+            return boolpath.none_edge(b, bbi, t, is_aof)
+    try:
+        ex = boolpath.explore(pb, HookSpec(), stop=ap)
+    except boolpath.TooManyStates as e:
+        R.broken.append(str(e)); return
+    muts = set(shared.mutators(ctx))
+    arms = [i for i, t in pb.calls() if i not in ap and (ctx.cg.reach([callee(t)] + list(t.get("clos") or [])) & muts)]
+    open_ = [i for i in arms if i in ex.reached]
+    ok = bool(ap) and bool(arms) and not open_
+    R.inst(PNC, "hook-before-dispatch", {"append_calls": len(ap), "mutating_arm_calls": len(arms), "reachable_without_hook": len(open_), "ok": ok})
     if not ok:
-        R.finding(PNC, "hook-before-dispatch", "some dispatcher arm can be reached without passing the AOF hook", pb.loc(ap[0]) if ap else pb.loc())
+        x = open_[0] if open_ else None
+        R.finding(PNC, "hook-before-dispatch", "some dispatcher arm that can change the dataset%s can be reached without passing the AOF hook (and without `not a write command` / `AOF off`)" % ((" (%s, line %d)" % (callee(pb.term(x)).split("::")[-1], pb.bb_line(x))) if x is not None else ""),
+                  pb.loc(x) if x is not None else (pb.loc(ap[0]) if ap else pb.loc()),
+                  ["bb%d line %d" % (y, pb.bb_line(y)) for y in ex.witness(pb, x)][-10:] if x is not None else None)
 
 
 def in_delivery_failure(b, i):
@@ -182,15 +193,18 @@ def rule_frame(ctx, R):
     sw = rules_rdb.discr_switch_on(ctx, b, "storage::aof::FsyncPolicy")
     R.floor("policy_switches", len(sw))
     for (i, names, other, p) in sw:
+        # a flush hoisted in front of the policy switch (after the serialisation) serves every arm
+        hoisted = any(t_["k"] == "call" and re.search(r"::flush$", t_["f"] or "") and cfg.dominates(b, x_, i) and all(x_ in cfg.fwd(b, [s_]) for s_, _ in ser)
+                      for x_, t_ in ((x_, b.term(x_)) for x_ in range(len(b.bbs))))
         for v, tgt in names.items():
             reg = cfg.edge_dom_set(b, i, tgt)
-            fl = any(b.term(x)["k"] == "call" and re.search(r"BufWriter<.*> as std::io::Write>::flush$|::flush$", b.term(x)["f"] or "") for x in reg)
+            fl = hoisted or any(b.term(x)["k"] == "call" and re.search(r"BufWriter<.*> as std::io::Write>::flush$|::flush$", b.term(x)["f"] or "") for x in reg)
             R.inst(APPEND, "policy:" + str(v), {"flushes": fl})
             if not fl:
                 R.finding(APPEND, "policy:%s:no-flush" % v, "fsync policy %s does not flush the buffered writer: the file ends in a partial frame" % v, b.loc(tgt))
         if other is not None and len(names) < 3:
             reg = cfg.edge_dom_set(b, i, other)
-            fl = any(b.term(x)["k"] == "call" and re.search(r"::flush$", b.term(x)["f"] or "") for x in reg)
+            fl = hoisted or any(b.term(x)["k"] == "call" and re.search(r"::flush$", b.term(x)["f"] or "") for x in reg)
             R.inst(APPEND, "policy:default", {"flushes": fl})
             if not fl and b.term(other)["k"] != "unreachable":
                 R.finding(APPEND, "policy:default:no-flush", "a fsync policy arm does not flush the buffered writer", b.loc(other))
